@@ -15,8 +15,15 @@ Commute(f, g, n) == \A d \in 1..n : f[g[d]] = g[f[d]]
 \* no set with millions of tuples is ever built
 Mk(n, dm, t) == [n |-> n, dim |-> dm, op |-> t]
 ClassesOfFamily(n, dm, tuples) == {CanonSet(T) : T \in {U \in {Mk(n, dm, t) : t \in tuples} : Connected(U)}}
-Classes(n, dm) == LET I == Inv(n)  P == {q \in I \X I : Commute(q[1], q[2], n)} IN
-   IF dm = 1 THEN UNION {ClassesOfFamily(n, dm, {<<a, b>> : b \in I}) : a \in I}
+TuplesAll(n, dm) == LET I == Inv(n)  P == {q \in I \X I : Commute(q[1], q[2], n)} IN
+   IF dm = 1 THEN {<<a, b>> : a \in I, b \in I}
+   ELSE IF dm = 2 THEN {<<p[1], b, p[2]>> : p \in P, b \in I}
+   ELSE {<<z[1][1], z[2][1], z[1][2], z[2][2]>> : z \in {w \in P \X P : Commute(w[1][1], w[2][2], n)}}
+Classes(n, dm) == LET I == Inv(n)  P == {q \in I \X I : Commute(q[1], q[2], n)}  k == Cardinality(I) IN
+   \* one set when it stays well below TLC's bound on constructed sets (faster), family by family otherwise
+   IF (dm = 1 /\ k * k < 800000) \/ (dm = 2 /\ k * k * k < 800000) \/ (dm = 3 /\ k * k * k * k < 800000)
+   THEN ClassesOfFamily(n, dm, TuplesAll(n, dm))
+   ELSE IF dm = 1 THEN UNION {ClassesOfFamily(n, dm, {<<a, b>> : b \in I}) : a \in I}
    ELSE IF dm = 2 THEN UNION {ClassesOfFamily(n, dm, {<<p[1], b, p[2]>> : b \in I}) : p \in P}
    ELSE UNION {ClassesOfFamily(n, dm, {<<p[1], q[1], p[2], q[2]>> : q \in {w \in P : Commute(p[1], w[2], n)}}) : p \in P}
 Header(e) == dim' = e.dim /\ max' = e.max /\ seen' = {} /\ count' = 0
